@@ -26,7 +26,7 @@ TCall == /\ l <= Len(Tr) /\ Ev.op = "call"
          /\ kind' = [kind EXCEPT ![Ev.t] = Ev.kind]
          /\ l' = l + 1 /\ UNCHANGED <<avars, res, tid>>
 TLin == \E t \in pend :
-         /\ IF kind[t] \in {"c", "cf", "cs", "cd"}
+         /\ IF kind[t] \in {"c", "cf", "cs", "cd", "mg"}
             THEN res' = [res EXCEPT ![t] = Outcome(t, owner)] /\ TryCreate(t)
             ELSE res' = [res EXCEPT ![t] = FailOutcome(t, owner)] /\ TryFail(t)
          /\ pend' = pend \ {t}
